@@ -172,6 +172,19 @@ func genC01(t *Tape, tier string) *Scenario {
 		}
 		cp.Data = append(cp.Data, dp)
 	}
+	if cp.ParkRcpt == 7*time.Second {
+		// the timing stratum: nobody else takes time - the backend reads without pauses and
+		// the server's reads are not capped to an octet at a time
+		for i := range cp.Data {
+			cp.Data[i].ParkReads = nil
+		}
+		cs.SrvCaps = nil
+		for i := range steps {
+			if len(steps[i].Gaps) > 0 && !(len(steps[i].Gaps) == 2 && steps[i].Gaps[1] == 6*time.Second) {
+				steps[i].Gaps = nil
+			}
+		}
+	}
 	steps = append(steps, Step{Kind: kQuit, Data: []byte("QUIT\r\n"), Wait: 1})
 	cs.Steps = steps
 	cs.defaults()
